@@ -456,10 +456,28 @@ pub struct Verdict {
     pub structural: Vec<String>,
     pub undercount: Vec<String>,
     pub leak: Vec<String>,
+    /// host cluster index of every entry of `leak`
+    pub leak_clusters: Vec<u64>,
     pub referenced_clusters: usize,
 }
 
 impl Verdict {
+    /// drop the leak entries of the given host clusters; returns how many
+    pub fn forgive_leaks(&mut self, clusters: &std::collections::BTreeSet<u64>) -> usize {
+        let mut n = 0;
+        let mut i = 0;
+        while i < self.leak_clusters.len() {
+            if clusters.contains(&self.leak_clusters[i]) {
+                self.leak_clusters.remove(i);
+                self.leak.remove(i);
+                n += 1;
+            } else {
+                i += 1;
+            }
+        }
+        n
+    }
+
     pub fn exact_ok(&self) -> bool {
         self.fatal.is_none()
             && self.structural.is_empty()
@@ -538,6 +556,7 @@ pub fn check_walk(img: &dyn Img, w: &Walk, exact: bool, v: &mut Verdict) {
                 "host cluster {cl} ({:#x}) refcount {stored} > {refs} references",
                 cl * cs
             ));
+            v.leak_clusters.push(*cl);
         }
         let _ = maxv;
     }
@@ -567,6 +586,7 @@ pub fn check_walk(img: &dyn Img, w: &Walk, exact: bool, v: &mut Verdict) {
                         "host cluster {cl} ({:#x}) refcount {stored}, no reference",
                         cl * cs
                     ));
+                    v.leak_clusters.push(cl);
                 }
             }
         }
